@@ -50,6 +50,9 @@ APIS = [
     ("parallel_temper", {"warm": True, "repeat": True}),
     ("tree.slice", {"warm": True, "repeat": True}),
     ("get_subtree", {"warm": True, "repeat": True}),
+    # compressed trees refine themselves with another annealer / the windowed optimizer
+    ("compressed.simulated_anneal", {}), ("compressed.simulated_anneal_default_objective", {}),
+    ("compressed.windowed_reconfigure", {}), ("windowed_reconfigure", {}),
 ]
 GENS = ["rand_equation", "tree_equation", "randreg_equation", "perverse_equation", "lattice_equation",
         "make_rand_size_dict_from_inputs", "make_arrays_from_inputs", "rand_tree"]
